@@ -2,6 +2,8 @@ package service_account
 
 import (
 	"fmt"
+	"math"
+	"math/bits"
 
 	types "github.com/New-JAMneration/JAM-Protocol/internal/types"
 	utils "github.com/New-JAMneration/JAM-Protocol/internal/utilities"
@@ -186,12 +188,20 @@ func CalcThresholdBalance(aI types.U32, aO types.U64, aF types.U64) types.U64 {
 	/*
 		a_t ∈ N_B ≡ B_S + B_I*a_i + B_L*a_o
 	*/
-	storage := types.U64(types.BasicMinBalance) + types.U64(types.AdditionalMinBalancePerItem)*types.U64(aI) + types.U64(types.AdditionalMinBalancePerOctet)*aO
-	if storage < aF {
+	// computed over the integers: B_L*a_o + (B_S + B_I*a_i) can need more than 64 bits
+	hi, lo := bits.Mul64(uint64(types.AdditionalMinBalancePerOctet), uint64(aO))
+	lo, carry := bits.Add64(lo, uint64(types.BasicMinBalance)+uint64(types.AdditionalMinBalancePerItem)*uint64(aI), 0)
+	hi += carry
+	lo, borrow := bits.Sub64(lo, uint64(aF), 0)
+	if hi == 0 && borrow != 0 {
 		// result < 0
 		return 0
 	}
-	return storage - aF
+	if hi-borrow != 0 {
+		// the threshold does not fit N_B: no balance can reach it
+		return types.U64(math.MaxUint64)
+	}
+	return types.U64(lo)
 }
 
 /*
